@@ -1942,7 +1942,7 @@ Additional mappings can be provided.
         # Want input mapping to persist
         mappingFromFiles = Mapping()
         for dirname in hooks.customisationDirs:
-            self._readRemapFile(dirname, mappingFromFiles, mode)
+            self._readRemapFile(dirname, mappingFromFiles, mode=mode)
         mapping.merge(mappingFromFiles, overwrite=False)
 
         self.mapping = mapping
@@ -2007,7 +2007,7 @@ Additional mappings can be provided.
 
             mat = re.search(r"^\[([^]]+)\]\s*(.*)", line) # look for a line like [create] ...
             if mat:
-                if mode and mode != mat.group(1):
+                if mode != mat.group(1):
                     continue
                 line = mat.group(2)
             elif mode:
@@ -2018,6 +2018,8 @@ Additional mappings can be provided.
                 continue
 
             vals = line.split()
+            if not vals:                # nothing but a [mode] prefix
+                continue
 
             product, inversion, outproduct, outversion, flavor = 5*[None]
             if len(vals) > 0:
